@@ -351,6 +351,31 @@ func LengthMutants(raw []byte) [][]byte {
 	return out
 }
 
+// SmallValueMutants enumerates every head of raw with its argument set to each of 0..40, one at a time:
+// enumerations, type codes and flag fields are small numbers, and the boundary values of LengthMutants step
+// over the value just behind the last defined one.
+func SmallValueMutants(raw []byte) [][]byte {
+	var out [][]byte
+	outer, inner := CountNodes(raw)
+	for k := 0; k < outer; k++ {
+		for v := uint64(0); v <= 40; v++ {
+			if m, _, ok := applyMutations(raw, []Mutation{{Op: "setarg", Node: k, A: v}}, false); ok {
+				out = append(out, m)
+			}
+		}
+	}
+	for bi, n := range inner {
+		for k := 0; k < n; k++ {
+			for v := uint64(0); v <= 40; v++ {
+				if m, _, ok := applyMutations(raw, []Mutation{{Op: "inner-setarg", Node: bi, A: v, B: k}}, false); ok {
+					out = append(out, m)
+				}
+			}
+		}
+	}
+	return out
+}
+
 // Truncations returns every proper prefix of raw.
 func Truncations(raw []byte) [][]byte {
 	var out [][]byte
